@@ -357,26 +357,127 @@ def invariant_assumes(b):
     return inv
 
 
-def _path_c(b, src, dst, blocked, keys):
+def origin_assumes(b):
+    """{assume id: {origin site: truth}} for assume nodes whose condition is a
+    join of alternatives produced at distinct sites (return sites / object
+    construction sites) and whose truth per alternative is decidable.  On a
+    path, the alternative tested is the one whose site was passed last."""
+    oa = getattr(b, '_origin_assumes', None)
+    if oa is not None:
+        return oa
+    from ..iexpr import truth
+    oa = {}
+    for n in b.nodes('assume'):
+        c, pol = unwrap_not(n.data['cond'], n.data['pol'])
+        table = {}
+        if isinstance(c, Phi):
+            for a, o in c.alts:
+                if o is None and isinstance(a, Obj):
+                    o = a.site
+                if o is None:
+                    table = None
+                    break
+                tv = truth(a)
+                if o in table and table[o] != tv:
+                    table[o] = None
+                else:
+                    table[o] = tv
+        elif isinstance(c, Call) and c.fn == 'isinstance' and len(c.args) == 2 and \
+                isinstance(c.args[0], Phi):
+            for a, o in c.args[0].alts:
+                if o is None and isinstance(a, Obj):
+                    o = a.site
+                if o is None:
+                    table = None
+                    break
+                tv = b.b.isinstance_of(a, c.args[1])
+                if o in table and table[o] != tv:
+                    table[o] = None
+                else:
+                    table[o] = tv
+        else:
+            table = None
+        if table and any(v is not None for v in table.values()):
+            # store the truth of the *assume* being satisfiable per site
+            oa[n.id] = (table, pol)
+    b._origin_assumes = oa
+    return oa
+
+
+def dispatch_groups(b):
+    """{dispatch node: (site of the receiver alternative, group of all sites)}:
+    a dynamic dispatch branch is feasible only when the object it is taken for
+    is the one whose construction site was passed last."""
+    dg = getattr(b, '_dispatch_groups', None)
+    if dg is None:
+        dg = {}
+        for n in b.nodes('dispatch'):
+            if n.data.get('group') and n.data.get('alt_site') is not None:
+                dg[n.id] = (n.data['alt_site'], n.data['group'])
+        b._dispatch_groups = dg
+    return dg
+
+
+def _path_c(b, src, dst, blocked, keys, edge_ok=None):
     """Shortest path src -> dst avoiding blocked that is consistent w.r.t. the
-    invariant conditions in ``keys`` (BFS over the product graph)."""
+    tracked facts in ``keys``: ('inv', cid) run-invariant conditions and
+    ('orig', assume id) origin-correlated conditions (BFS over the product)."""
     inv = invariant_assumes(b)
+    oa = origin_assumes(b)
     g = b.g
+    inv_keys = set(k for t, k in keys if t == 'inv')
+    orig_keys = [k for t, k in keys if t == 'orig']
+    site_of = {}
+    for a in orig_keys:
+        for site in oa[a][0]:
+            site_of.setdefault(site, []).append(a)
+    dg = dispatch_groups(b)
+    disp_keys = set(k for t, k in keys if t == 'disp')
+    gsite = {}
+    for grp in disp_keys:
+        for site in grp:
+            gsite.setdefault(site, []).append(grp)
 
     def step(st, t):
-        if t in inv and inv[t][0] in keys:
+        if t in inv and inv[t][0] in inv_keys:
             k, pol = inv[t]
-            if (k, not pol) in st:
+            if (('i', k), not pol) in st:
                 return None
-            if (k, pol) not in st:
-                return st | {(k, pol)}
+            if (('i', k), pol) not in st:
+                st = st | {(('i', k), pol)}
+        if t in site_of:
+            for a in site_of[t]:
+                st = frozenset(x for x in st if x[0] != ('o', a)) | {(('o', a), t)}
+        if t in gsite:
+            for grp in gsite[t]:
+                st = frozenset(x for x in st if x[0] != ('d', grp)) | {(('d', grp), t)}
+        if t in dg and dg[t][1] in disp_keys:
+            want, grp = dg[t]
+            for x in st:
+                if x[0] == ('d', grp) and x[1] != want:
+                    return None
+        if t in oa and t in orig_keys:
+            table, pol = oa[t]
+            for x in st:
+                if x[0] == ('o', t):
+                    tv = table.get(x[1])
+                    if tv is not None and tv != pol:
+                        return None
         return st
-    st0 = step(frozenset(), src)
-    if st0 is None or src in blocked:
-        return None
-    start = (src, st0)
-    prev = {start: None}
-    queue = [start]
+    if isinstance(src, int):
+        src = [src]
+    prev = {}
+    queue = []
+    for s0 in src:
+        if s0 in blocked:
+            continue
+        st0 = step(frozenset(), s0)
+        if st0 is None:
+            continue
+        start = (s0, st0)
+        if start not in prev:
+            prev[start] = None
+            queue.append(start)
     i = 0
     while i < len(queue):
         cur = queue[i]
@@ -391,6 +492,8 @@ def _path_c(b, src, dst, blocked, keys):
         for t, l in g.succ[x]:
             if t in blocked:
                 continue
+            if edge_ok is not None and not edge_ok(l):
+                continue
             st2 = step(st, t)
             if st2 is None:
                 continue
@@ -401,30 +504,56 @@ def _path_c(b, src, dst, blocked, keys):
     return None
 
 
-def feasible_path(b, src, dst, blocked=()):
-    """A path src -> dst avoiding ``blocked`` that does not contradict itself on
-    any run-invariant condition, or None.  Conditions are tracked on demand
-    (refinement loop), so the product stays small."""
+def normal_edge(label):
+    return not (label and label.startswith('exc:'))
+
+
+def feasible_path(b, src, dst, blocked=(), edge_ok=None):
+    """A path src -> dst avoiding ``blocked`` that does not contradict itself,
+    or None.  Two kinds of contradiction are recognised: (a) both polarities of
+    one run-invariant condition; (b) passing the site that produced a value and
+    then the assume that tests the opposite truth of that value.  Facts are
+    tracked on demand (refinement loop), so the product stays small."""
     inv = invariant_assumes(b)
+    oa = origin_assumes(b)
+    dgr = dispatch_groups(b)
     blocked = set(blocked)
     keys = set()
     while True:
-        path = _path_c(b, src, dst, blocked, keys)
+        path = _path_c(b, src, dst, blocked, keys, edge_ok)
         if path is None:
             return None
         seen = {}
         clash = None
-        for x in path:
+        for idx, x in enumerate(path):
             if x in inv:
                 k, pol = inv[x]
                 if seen.get(k, pol) != pol:
-                    clash = k
+                    clash = ('inv', k)
                     break
                 seen[k] = pol
+            if x in dgr and ('disp', dgr[x][1]) not in keys:
+                want, grp = dgr[x]
+                last = None
+                for y in path[:idx]:
+                    if y in grp:
+                        last = y
+                if last is not None and last != want:
+                    clash = ('disp', grp)
+                    break
+            if x in oa and ('orig', x) not in keys:
+                table, pol = oa[x]
+                last = None
+                for y in path[:idx]:
+                    if y in table:
+                        last = y
+                if last is not None and table[last] is not None and table[last] != pol:
+                    clash = ('orig', x)
+                    break
         if clash is None:
             return path
         keys.add(clash)
-        if len(keys) > 12:
+        if len(keys) > 14:
             return path      # give up refining: report (sound for a must-rule)
 
 
